@@ -1,12 +1,14 @@
 import ScVerif.Base.Line
 import ScVerif.C19.Electric
 import ScVerif.C19.Events
+import ScVerif.C19.Named
 /-! Driver handler for C19 (stateful: one electric model per driver process, `reset` starts afresh).
 
 ```
 reset | config <active mode> <mode;mode;…|->      (initial state: NewModel with WithInitialMode / WithInitialActiveMode)
 find <id>
-create <mode> <cands>      add <mode>        update <mode> <mask> [w<createIfAbsent 0|1><expectAbsent 0|1> <expected mode|->]
+create <mode> <cands>      add <mode>        update <mode> <mask> [w<createIfAbsent 0|1><expectAbsent 0|1> <expected mode|->
+                                                                     [<reset mask> <check name|-> <before name|-> <after name|->]]
 delete <id> <0|1> [<expected mode|->]
 setactive <mode>           change <id> <now> clear <now>
 s.create <mode> <cands>    s.update <mode> <mask>   s.delete <id> <0|1>   s.change <id> <now>   s.clear <now>
@@ -109,11 +111,20 @@ def parseWOpts? (w e : String) : Option WOpts :=
     pure { createIfAbsent := c, expectAbsent := a, expected := e }
   | _ => none
 
+/-- an optional named callback: `-` = not given -/
+def parseNamed? {α : Type} (table : String → Option α) (s : String) : Option (Option α) :=
+  if s = "-" then some none else (table s).map some
+
 def parseOp? : List String → Option Op
   | ["create", m, c] => do pure (.create (← parseMode? m) (← parseCands? c))
   | ["add", m] => do pure (.add (← parseMode? m))
   | ["update", m, k] => do pure (.update (← parseMode? m) (← parseMask? k) {})
   | ["update", m, k, w, e] => do pure (.update (← parseMode? m) (← parseMask? k) (← parseWOpts? w e))
+  | ["update", m, k, w, e, r, c, b, a] => do
+    let w ← parseWOpts? w e
+    pure (.update (← parseMode? m) (← parseMask? k)
+      { w with reset := (← parseMask? r), check := (← parseNamed? namedCheck? c),
+               before := (← parseNamed? namedIcpt? b), after := (← parseNamed? namedIcpt? a) })
   | ["delete", i, a] => do pure (.delete (← parseId? i) (← parseBool? a) none)
   | ["delete", i, a, e] => do pure (.delete (← parseId? i) (← parseBool? a) (← parseExpected? e))
   | ["setactive", m] => do pure (.setActive (← parseMode? m))
